@@ -191,6 +191,7 @@ class Path:
       self._learn(e.arg(0), not val)
 
   def decide(self, cond, label=''):
+    orig = cond
     cond = z3.simplify(cond)
     if z3.is_true(cond):
       return True
@@ -206,7 +207,9 @@ class Path:
       self.new_alternatives.append(self.taken + [False])
     self.pos += 1
     self.taken.append(choice)
-    self.hyps.append(cond if choice else z3.Not(cond))
+    # the hypothesis keeps the term structure the code produced (triggers match the terms
+    # that later updates are built from); the simplified form is only used for look-ups
+    self.hyps.append(orig if choice else z3.Not(orig))
     self._learn(cond, choice)
     return choice
 
@@ -222,6 +225,19 @@ class Path:
     self.pos += 1
     self.taken.append(choice)
     return choice
+
+  def feasible(self, timeout_ms=1500):
+    """False only if the path condition is PROVABLY contradictory (quick in-process check);
+    unknown counts as feasible."""
+    s = z3.Solver()
+    s.set('timeout', timeout_ms)
+    s.set('smt.mbqi', False)
+    s.set('auto_config', False)
+    for a in sym.background_axioms(list(self.hyps)):
+      s.add(a)
+    for h in self.hyps:
+      s.add(h)
+    return s.check() != z3.unsat
 
   def define(self, name, vars_, body):
     """A fresh function symbol with a definitional axiom (conservative)."""
@@ -1171,7 +1187,8 @@ class Executor:
     return VTuple([self.ev(e) for e in node.elts])
 
   def ex_List(self, node):
-    items = [self.ev(e) for e in node.elts]
+    from pyvc import tree as _tree
+    items = [_tree.as_node(self.ev(e)) for e in node.elts]
     if any(isinstance(e, ast.Starred) for e in node.elts):
       self.oos('starred list display', node)
     if not items:
